@@ -183,8 +183,11 @@ def impl_oracle(line, out):
             l = live.setdefault((s, mid), [])
             l.append(rec)
             if len(l) > 1:
-                for x in l:
-                    x["taint"] = True
+                # a second pending message with the same session and mid (application error; the
+                # machine copes, C06_one_outcome is per message): the trace cannot tell the two
+                # apart, nothing is claimed about this key from here on
+                fog.add((s, mid))
+                live.pop((s, mid), None)
             continue
         if k in ("K", "P", "R", "N", "X"):
             s, mid = int(e[1]) % ns, int(e[2])
@@ -485,7 +488,7 @@ def main(run):
             # every clause the oracle evaluates is a theorem (C06_one_outcome, C06_spacing,
             # C06_deadline_law, C06_wait_sound, C06_timeout_range): a complaint here is a defect of
             # the oracle, not of libcoap.  It is recorded, never reported as a violation.
-            oracle_self.append({"case": ln[:300], "oracle": probs[0]})
+            oracle_self.append({"case": ln[:3000], "oracle": probs[0]})
             vlib.log("note (C06): oracle complains about a trace that equals the model's: %s [%s]" %
                      (probs[0], ln[:120]))
             probs = []
